@@ -314,9 +314,9 @@ fn run(opts: &Opts, acc: &mut Acc) {
     });
     acc.mark_exhaustive("grid", "paths x binding configurations x placements; coalesce argument lists of length 0..3; has over every argument kind");
     let n = match (opts.tier, opts.is_dbg()) {
-        (crate::engine::Tier::Quick, _) => 20_000,
-        (_, false) => 500_000,
-        (_, true) => 40_000,
+        (crate::engine::Tier::Quick, _) => 300_000,
+        (_, false) => 2_000_000,
+        (_, true) => 200_000,
     };
     random_genomes(acc, opts, "random", n, 120, |gn, a| {
         let mut g = G::new(gn);
